@@ -53,6 +53,8 @@ func versionEvaluator(c *Ctx, sc verScenario, header bool) *symEval {
 		}
 		return ""
 	}
+	// in a scenario in which a listed version matches the list is not empty (the generic element is that version)
+	se.nonEmpty = func(coll string) bool { return coll == "VERS" && sc.match }
 	se.norm = func(e string) string {
 		switch e {
 		case "SLICE(VER,_,SUB(LEN(VER),CONST:1))":
@@ -233,6 +235,9 @@ func ruleVersionMatcherSemantics(c *Ctx, rulePath, ruleHeader string) {
 						bad = append(bad, fmt.Sprintf("with %s it accepts after {%s}, expected {%s}", sc, strings.Join(effs, "; "), strings.Join(want, "; ")))
 					}
 				case "CONST:false":
+					if shouldAccept {
+						bad = append(bad, fmt.Sprintf("with %s it can reject: some path to a rejection depends on a condition the contract does not mention (an extra pre-filter on the request)", sc))
+					}
 					if len(effs) > 0 {
 						bad = append(bad, fmt.Sprintf("with %s it rejects after {%s}: a rejecting matcher must leave the request and the parameters untouched", sc, strings.Join(effs, "; ")))
 					}
